@@ -1104,6 +1104,23 @@ class Evaluator:
             return k(("ok", vs[0]), st)
         if base.endswith("result::Result::Err"):
             return k(("err", vs[0]), st)
+        if base.startswith("core::result::Result::") and vs and isinstance(vs[0], tuple) and vs[0] and vs[0][0] in ("ok", "err"):
+            nm = base[len("core::result::Result::"):]
+            isok = vs[0][0] == "ok"
+            if nm == "ok":
+                return k(some(vs[0][1]) if isok else NONE, st)
+            if nm == "err":
+                return k(NONE if isok else some(vs[0][1]), st)
+            if nm in ("is_ok", "is_err"):
+                return k(("bool", isok == (nm == "is_ok")), st)
+            if nm == "map" and len(vs) == 2:
+                if not isok:
+                    return k(vs[0], st)
+                return self.apply(vs[1], [vs[0][1]], st, env, lambda v, s: k(("ok", v), s), loc)
+            if nm == "map_err" and len(vs) == 2:
+                if isok:
+                    return k(vs[0], st)
+                return self.apply(vs[1], [vs[0][1]], st, env, lambda v, s: k(("err", v), s), loc)
         if base.startswith("core::option::Option::") and vs:
             r = self.option_method(base[len("core::option::Option::"):], vs, st, env, k, loc)
             if r is not None:
@@ -1197,6 +1214,15 @@ class Evaluator:
         r = vs[0]
         rt = r[0] if isinstance(r, tuple) and r else None
         if rt not in ("some", "none"):
+            # an Option we know nothing about, handed to a combinator with a closure: both cases, as an opaque branch
+            # (`x.ok().map(|v| ..)` is `match x.ok() { Some(v) => Some(..), None => None }`)
+            if rt in ("pure", "opaque") and name in ("map", "and_then", "map_or", "map_or_else", "or_else", "unwrap_or_else", "is_some_and") \
+                    and any(isinstance(v, Clo) for v in vs[1:]):
+                inner = pure("part_of", (r,))
+                t_some = self.option_method(name, [some(inner)] + list(vs[1:]), dict(st), env, k, loc)
+                t_none = self.option_method(name, [NONE] + list(vs[1:]), dict(st), env, k, loc)
+                if t_some is not None and t_none is not None:
+                    return {"n": "opq", "cond": ("match", r), "arms": [("some", t_some), ("none", t_none)]}
             return None
         if name in ("as_ref", "as_mut", "copied", "cloned", "as_deref"):
             return k(r, st)
@@ -1224,6 +1250,22 @@ class Evaluator:
             return {"n": "leaf", "kind": "panic", "val": ("lit", name)}
         if name == "unwrap_or":
             return k(r[1] if rt == "some" else vs[1], st)
+        if name == "unwrap_or_else":
+            if rt == "some":
+                return k(r[1], st)
+            return self.apply(vs[1], [], st, env, k, loc)
+        if name == "map_or":          # map_or(default, f): the default has been evaluated already (eagerly, as in Rust)
+            if rt == "none":
+                return k(vs[1], st)
+            return self.apply(vs[2], [r[1]], st, env, k, loc)
+        if name == "map_or_else":
+            if rt == "none":
+                return self.apply(vs[1], [], st, env, k, loc)
+            return self.apply(vs[2], [r[1]], st, env, k, loc)
+        if name == "is_some_and":
+            if rt == "none":
+                return k(("bool", False), st)
+            return self.apply(vs[1], [r[1]], st, env, k, loc)
         if name == "or":          # the argument has been evaluated already (eagerly, as in Rust)
             return k(r if rt == "some" else vs[1], st)
         if name == "or_else":
@@ -1418,6 +1460,24 @@ class Canon:
             return ("loop", lid, rng, entry, body, after)
         if n == "opq":
             cond = self.val(t["cond"])
+            arms = t["arms"]
+            # one spelling for a two-way test of an Option / Result: `if let Some(x) = v`, `let Some(x) = v else`, and
+            # `match v { Some(x) => .., None | _ => .. }` are all ("match", v) with arms named after the variants
+            TWO = {"Some": "None", "None": "Some", "Ok": "Err", "Err": "Ok"}
+            raw = t["cond"]
+            if isinstance(raw, tuple) and raw and raw[0] in ("iflet", "letelse") and raw[1] in TWO and [l for l, _ in arms] == ["match", "else"]:
+                cond = ("match", self.val(raw[2]))
+                arms = [(raw[1], arms[0][1]), (TWO[raw[1]], arms[1][1])]
+            elif isinstance(raw, tuple) and raw and raw[0] == "match" and len(arms) == 2:
+                labs = [l for l, _ in arms]
+                for i in (0, 1):
+                    if labs[i] in TWO and labs[1 - i] == "_":
+                        arms = list(arms)
+                        arms[1 - i] = (TWO[labs[i]], arms[1 - i][1])
+            if [l for l, _ in arms] in (["None", "Some"], ["Err", "Ok"]):
+                arms = [arms[1], arms[0]]
+            t = dict(t)
+            t["arms"] = arms
             for key, arm in self.assume.items():
                 if key in repr(cond):
                     for lab, sub in t["arms"]:
